@@ -434,3 +434,864 @@ def c06(tier, seed):
               'payload and every following field must come back identical; distinct = (schema, message, pair location, payload class)')
     c.assumptions = ['payload length <= 2047 (FIX8_MAX_FLD_LENGTH - 1)', 'NUL payloads are only exercised on the decode side (the metadata factory takes C strings)']
     c.finish()
+
+
+# ---------------------------------------------------------------------------------------------------------
+# C03: hostile bytes into the factory (4 mode combinations), oversized values into the encoder
+
+def fix_trailer(b):
+    """recompute BodyLength and CheckSum of a mutated message where its frame is still recognisable"""
+    try:
+        i9 = b.index(b'\x019=') + 1
+        e9 = b.index(b'\x01', i9)
+        t = b.rindex(b'\x0110=') + 1
+    except ValueError:
+        return b
+    body = b[e9 + 1:t]
+    nb = b[:i9] + b'9=' + str(len(body)).encode() + b'\x01' + body
+    return nb + b'10=' + ('%03d' % (sum(nb) % 256)).encode() + b'\x01'
+
+
+def tokens_of(b):
+    """(start, eq, end) of each tag=value SOH token found by a plain SOH split"""
+    out, i = [], 0
+    while i < len(b):
+        e = b.find(b'\x01', i)
+        if e < 0:
+            e = len(b) - 1
+        q = b.find(b'=', i, e + 1)
+        out.append((i, q, e + 1))
+        i = e + 1
+    return out
+
+
+HOSTILE = ['long-tag', 'long-value', 'no-equals', 'no-soh', 'truncate', 'group-count', 'length-lies', 'preamble', 'short', 'bytes',
+           'random', 'early-checksum', 'no-trailer', 'dup-tokens', 'huge-tag-number', 'empty-value', 'tail-garbage']
+
+
+def hostile(rng, base, cls, s, pairs):
+    toks = tokens_of(base)
+    b = bytearray(base)
+    pick = lambda lo=0: toks[rng.randrange(lo, len(toks))] if len(toks) > lo else toks[-1]
+    if cls == 'long-tag':
+        st, q, en = pick()
+        n = rng.choice([5, 6, 10, 11, 20, 31, 32, 33, 64, 100, 1000, 2047, 2048, 2049, 4000, 7000])
+        digits = bytes(rng.randint(48, 57) for _ in range(n))
+        b[st:q] = digits
+    elif cls == 'long-value':
+        st, q, en = pick()
+        n = rng.choice([31, 32, 33, 100, 2046, 2047, 2048, 2049, 2050, 3000, 4095, 4096, 6000, 7900])
+        b[q + 1:en - 1] = bytes(rng.choice([65, 48, 32, 61, 200]) for _ in range(n))
+    elif cls == 'no-equals':
+        st, q, en = pick()
+        if q >= 0:
+            del b[q]
+    elif cls == 'no-soh':
+        for _ in range(rng.randint(1, 3)):
+            st, q, en = pick()
+            if en - 1 < len(b) and b[en - 1] == 1:
+                b[en - 1] = rng.choice([32, 124, 0, 2])
+    elif cls == 'truncate':
+        b = b[:rng.randrange(0, len(b))]
+    elif cls == 'group-count':
+        groups = [t for t in toks if t[1] > 0 and base[t[0]:t[1]].isdigit() and int(base[t[0]:t[1]]) in s.by_num and s.by_num[int(base[t[0]:t[1]])].type == 'NUMINGROUP']
+        if groups:
+            st, q, en = rng.choice(groups)
+            b[q + 1:en - 1] = rng.choice([b'0', b'1', b'2', b'99', b'65535', b'2147483647', b'4294967295', b'-1', b'-2147483648', b'x', b'', b'1e9', b'00000000000000000001'])
+    elif cls == 'length-lies':
+        lens = [t for t in toks if t[1] > 0 and base[t[0]:t[1]].isdigit() and int(base[t[0]:t[1]]) in pairs]
+        if lens:
+            st, q, en = rng.choice(lens)
+            b[q + 1:en - 1] = rng.choice([b'0', b'1', b'2046', b'2047', b'2048', b'2049', b'8000', b'65535', b'65536', b'2147483647', b'4294967295', b'4294967296', b'-1', b'-5', b'x', b'', str(len(base)).encode(), str(len(base) - en).encode(), str(max(0, len(base) - en - 8)).encode()])
+        else:
+            cls = 'length-lies-none'
+    elif cls == 'preamble':
+        k = rng.randrange(9)
+        t8, t9, t35 = toks[0], toks[1], toks[2]
+        if k == 0:
+            b[t8[1] + 1:t8[2] - 1] = bytes(65 for _ in range(rng.choice([31, 32, 33, 100, 2047, 2048, 5000])))
+        elif k == 1:
+            b[t9[1] + 1:t9[2] - 1] = bytes(rng.randint(48, 57) for _ in range(rng.choice([8, 10, 11, 31, 32, 33, 100, 2047, 2048, 5000])))
+        elif k == 2:
+            b[t35[1] + 1:t35[2] - 1] = bytes(65 for _ in range(rng.choice([2, 3, 31, 32, 33, 100, 2047, 2048, 5000])))
+        elif k == 3:
+            seg = [bytes(b[t[0]:t[2]]) for t in (t8, t9, t35)]
+            rng.shuffle(seg)
+            b[0:t35[2]] = b''.join(seg)
+        elif k == 4:
+            b[0:0] = bytes(b[t8[0]:t8[2]])
+        elif k == 5:
+            b[t9[1] + 1:t9[2] - 1] = rng.choice([b'0', b'-1', b'x', b'', b'99999999', b'4294967295', b'4294967303'])
+        elif k == 6:
+            del b[t35[0]:t35[2]]
+        elif k == 7:
+            b[t8[0]:t8[1]] = bytes(rng.randint(48, 57) for _ in range(rng.choice([2, 31, 32, 33, 40, 100, 3000])))
+        else:
+            b[t35[0]:t35[1]] = b'35' + bytes(rng.randint(48, 57) for _ in range(rng.choice([1, 29, 30, 31, 40, 100, 3000])))
+    elif cls == 'short':
+        n = rng.randrange(0, 24)
+        b = b[:n] if rng.random() < 0.5 else (b[-n:] if n else b[:0])
+    elif cls == 'bytes':
+        for _ in range(rng.randint(1, 12)):
+            if b:
+                b[rng.randrange(len(b))] = rng.choice([0, 255, 128, 1, 61, 10, 13, 127, rng.randrange(256)])
+    elif cls == 'random':
+        n = rng.choice([0, 1, 5, 6, 7, 8, 20, 100, 1000, 8192])
+        al = rng.choice([list(range(256)), [1, 61, 48, 49, 56, 57, 51, 53], [48, 49, 50], [1], [61]])
+        b = bytearray(rng.choice(al) for _ in range(n))
+    elif cls == 'early-checksum':
+        st, q, en = pick(3)
+        b[st:st] = b'10=' + bytes(rng.randint(48, 57) for _ in range(3)) + b'\x01'
+    elif cls == 'no-trailer':
+        t = base.rfind(b'\x0110=')
+        b = b[:t + 1] + bytearray(rng.choice([b'', b'10=', b'10=1', b'10=12\x01', b'10=1234\x01', b'11=123\x01', b'10=12', b'1']))
+    elif cls == 'dup-tokens':
+        st, q, en = pick(3)
+        seg = bytes(b[st:en])
+        b[en:en] = seg * rng.choice([1, 2, 50, 400])
+    elif cls == 'huge-tag-number':
+        st, q, en = pick(3)
+        b[st:q] = rng.choice([b'65535', b'65536', b'65537', b'99999', b'4294967295', b'4294967296', b'4294967297', b'18446744073709551616', b'0', b'00', b'000035'])
+    elif cls == 'empty-value':
+        st, q, en = pick()
+        b[q + 1:en - 1] = b''
+    elif cls == 'tail-garbage':
+        b += bytes(rng.randrange(256) for _ in range(rng.randint(1, 30)))
+    b = bytes(b[:8192])
+    if cls not in ('short', 'random', 'truncate', 'no-trailer', 'tail-garbage') and rng.random() < 0.6:
+        b = fix_trailer(b)[:8192]
+    return b, cls
+
+
+def input_features(b):
+    """input classes used in violation keys (what the input is, not where fix8 fails)"""
+    f = []
+    if len(b) < 7:
+        f.append('shorter-than-7-bytes')
+    mv = mt = 0
+    for st, q, en in tokens_of(b):
+        if q >= 0:
+            mt = max(mt, q - st)
+            mv = max(mv, en - 1 - q - 1)
+        else:
+            mt = max(mt, en - st)
+    if mv > 2047:
+        f.append('value-longer-than-2047')
+    if mt > 2047:
+        f.append('tag-longer-than-2047')
+    elif mt > 31:
+        f.append('tag-longer-than-31')
+    pre = tokens_of(b[:9000])[:3]
+    if any((en - st) > 31 for st, q, en in pre):
+        f.append('preamble-element-longer-than-31')
+    return '+'.join(f) or 'other'
+
+
+def c03(tier, seed):
+    c = Check('C03', tier, seed)
+    exe = c.build('asan', ['codec_exec'])['codec_exec']
+    sch = schemas()
+    rng = random.Random(seed * 104729 + 3)
+    total = 24000 if c.quick else 1000000
+    batch = 24000 if c.quick else 50000
+    gens = [fixgen.Gen(s, rng, max_str=20, opt_pct=25) for _, s, _ in sch]
+    feats, outcomes = set(), {}
+    done = 0
+    first_samples = []
+    while done < total:
+        n = min(batch, total - done)
+        entries = []
+        for k in range(n):
+            i = rng.randrange(len(sch))
+            cn, s, pm = sch[i]
+            mt = rng.choice(s.msg_order)
+            base = fixgen.render(gens[i].message(mt), s.begin_string)
+            cls = HOSTILE[(done + k) % len(HOSTILE)]
+            b, cls = hostile(rng, base, cls, s, pm)
+            if rng.random() < 0.15:     # a second mutation on top
+                b, cls2 = hostile(rng, b if len(tokens_of(b)) > 3 else base, rng.choice(HOSTILE), s, pm)
+                cls += '+' + cls2
+            feat = input_features(b)
+            entries.append((cn, mt, b, feat + '|' + cls))
+            feats.add(hash((feat, cls, cn)))
+        obs = run_script(c, exe, raw_cases(entries, 'RAWDEC:noreenc RAWDEC:nochk:noreenc RAWDEC:perm:noreenc RAWDEC:nochk:perm:noreenc'), n,
+                         'c03dec%d' % done, per_case_timeout=2.0)
+        for k, (cn, mt, b, label) in enumerate(entries):
+            o = obs.get(k)
+            c.evaluations += 1
+            if o is None:
+                continue
+            for op, (st, pl) in o.ops.items():
+                outcomes[st] = outcomes.get(st, 0) + 1
+                if st == 'stdexc':
+                    c.add_violation('oracle:non-library-exception|decode|' + exc_text(pl).split(':')[0] + '|' + label.split('|')[0],
+                                    'ctx=%s op=%s class=%s: %s input=%r' % (cn, op, label, exc_text(pl)[:160], b[:200]))
+                elif st == 'null':
+                    c.add_violation('oracle:factory-returned-null|' + label.split('|')[0], 'ctx=%s op=%s class=%s input=%r' % (cn, op, label, b[:200]))
+        if not first_samples:
+            first_samples = [{'class': e[3], 'ctx': e[0], 'input': e[2][:240].decode('latin-1')} for e in entries[:3]]
+        done += n
+    # ---- encode side: values of growing size through both encode entry points
+    nenc = 1500 if c.quick else 60000
+    lines, meta = [], {}
+    genb = [fixgen.Gen(s, rng, max_str=12, opt_pct=10) for _, s, _ in sch]
+    fill = random.Random(seed + 17)
+    sizes = [1, 100, 1000, 2047, 2048, 2049, 4000, 6000, 7000, 7500, 7900, 8000, 8100, 8150, 8190, 8192, 8200, 8224, 8300, 9000, 12000, 16384, 20000]
+    for k in range(nenc):
+        i = rng.randrange(len(sch))
+        cn, s, pm = sch[i]
+        mt = rng.choice(s.msg_order)
+        g = genb[i]
+        # one string-family (or data) field of the message gets a value of the chosen size
+        cands = [m for m in s.messages[mt].members + s.header.members if not m.group and m.field.base == 'string'
+                 and m.field.type in ('STRING', 'DATA', 'XMLDATA', 'MULTIPLEVALUESTRING', 'MULTIPLESTRINGVALUE', 'EXCHANGE') and m.num not in (8, 35) and not m.field.values]
+        if not cands:
+            continue
+        m = rng.choice(cands)
+        g.force = {m.num} | ({pl for pl, dn in g.data_after.items() if dn == m.num})
+        state = None
+        if k < 2 * len(sizes):
+            sz = sizes[k % len(sizes)]
+        elif k % 3 == 0:
+            sz = rng.randint(1, 7000)
+        else:
+            # aim the encoded size at the neighbourhood of the limit (never above it: the recorded finding is sampled by the first cases)
+            g.override = {m.num: b'A'}
+            state = rng.getstate()
+            base = len(fixgen.render(g.message(mt), s.begin_string))
+            rng.setstate(state)
+            sz = max(1, rng.choice([8192, 8191, 8190, 8180, 8100, 8000, rng.randint(7000, 8192)]) - base - 3)
+        g.override = {m.num: bytes(fill.choice([65, 66, 48, 32]) for _ in range(sz))}
+        if state is not None:
+            rng.setstate(state)     # same structure as the probe that measured the base size
+        msg = g.message(mt)
+        g.force, g.override = set(), {}
+        est = len(fixgen.render(msg, s.begin_string))
+        label = 'encoded-size-%s|value-size-%d' % ('above-max-msg-length' if est > 8192 else 'within-max-msg-length', sz)
+        kk = len(meta)
+        lines += ['CASE %d %s' % (kk, cn)] + fixgen.script_lines(msg) + ['CLASS ' + label.split('|')[0], 'DO ' + ('ENC' if k % 2 else 'ENCPTR'), 'END']
+        meta[kk] = (cn, s, pm, msg, label, est)
+    obs = run_script(c, exe, lines, len(meta), 'c03enc', per_case_timeout=2.0)
+    encok = 0
+    for k, (cn, s, pm, msg, label, est) in meta.items():
+        o = obs.get(k)
+        c.evaluations += 1
+        if o is None:
+            continue
+        for op, (st, pl) in o.ops.items():
+            if st == 'ok':
+                w = unhex(pl)
+                if w != fixgen.render(msg, s.begin_string):
+                    try:
+                        fixwire.parse_message(w, s, pm)
+                        continue        # float text may legitimately differ; well-formed is enough here (C01/C02 decide content)
+                    except fixwire.WireError as e:
+                        c.add_violation('oracle:encode-returned-malformed|' + label.split('|')[0], 'ctx=%s msg=%s %s: %s' % (cn, msg['msgtype'], label, e))
+                encok += 1
+            elif st == 'stdexc':
+                c.add_violation('oracle:non-library-exception|encode|' + exc_text(pl).split(':')[0], 'ctx=%s %s: %s' % (cn, label, exc_text(pl)[:160]))
+            outcomes['enc-' + st] = outcomes.get('enc-' + st, 0) + 1
+        feats.add(hash((label.split('|')[0], est // 512)))
+    c.hashes['input_class'] = feats
+    c.stats.update({'outcome_' + k: v for k, v in outcomes.items()})
+    c.stats['encodes_ok'] = encok
+    c.samples = first_samples
+    c.distinct_names = ['input_class']
+    c.rule = ('decode: reference-rendered valid messages of both schemas mutated by 17 structure-aware operators (tags of 5..7000 digits, values of '
+              '31..7900 bytes, missing "="/SOH, truncation at any offset, NumInGroup 0/huge/negative/non-numeric, Length fields lying about the data '
+              'size, preamble fields long/reordered/repeated/removed, inputs shorter than 7 bytes, NUL/high-bit bytes, random bytes, early "10=", '
+              'missing trailer, repeated tokens, tag numbers >= 65536, empty values, garbage after the checksum; 15% double mutations; 60% with '
+              'BodyLength/CheckSum recomputed) fed as exact-size heap strings <= 8192 bytes to Message::factory in strict/permissive x '
+              'checksum on/off; every outcome must be a message (then dumped field by field) or an f8Exception; ASan/UBSan/per-case watchdog '
+              'decide memory safety, UB, hangs.  encode: messages with one string/data value of 1..20000 bytes through encode(f8String&) and '
+              'encode(char**) with an exact-size heap buffer of the documented size; distinct = (input feature class, mutation, schema)')
+    c.assumptions = ['inputs are at most FIX8_MAX_MSG_LENGTH (8192) bytes', 'encode(char**) is given FIX8_MAX_MSG_LENGTH+HEADER_CALC_OFFSET bytes, the size the library itself uses',
+                     'leaks are not part of the property']
+    c.finish()
+
+
+# ---------------------------------------------------------------------------------------------------------
+# C04: strict decoding.  Oracle = conformance predicate over the independent schema model + faithful-content comparison
+
+def parse_dump(d):
+    """codec_exec dump -> {'H': nodes, 'B': nodes, 'T': nodes, 'unknown': {'H': bytes,...}}; node = (tag, value bytes, elems|None)"""
+    out, unk = {}, {}
+    pos = 0
+
+    def nodes(stop):
+        nonlocal pos
+        res = []
+        while pos < len(d) and d[pos] not in stop:
+            if d[pos] == '?':
+                e = d.index(',', pos)
+                unk_val.append(bytes.fromhex(d[pos + 1:e]))
+                pos = e + 1
+                continue
+            q = d.index('=', pos)
+            tag = int(d[pos:q])
+            pos = q + 1
+            e = pos
+            while e < len(d) and d[e] in '0123456789abcdef':
+                e += 1
+            val = bytes.fromhex(d[pos:e])
+            pos = e
+            elems = None
+            if pos < len(d) and d[pos] == '{':
+                pos += 1
+                elems = []
+                while d[pos] == '[':
+                    pos += 1
+                    elems.append(nodes(']'))
+                    pos += 1    # ]
+                pos += 1        # }
+            pos += 1            # ,
+            res.append((tag, val, elems))
+        return res
+    for sec in 'HBT':
+        assert d[pos:pos + 2] == sec + ':', d[pos:pos + 20]
+        pos += 2
+        unk_val = []
+        out[sec] = nodes(' ')
+        unk[sec] = b''.join(unk_val)
+        pos += 1
+    out['unknown'] = unk
+    return out
+
+
+def sem_equal(field, a, b):
+    if a == b:
+        return True
+    from decimal import Decimal, InvalidOperation
+    try:
+        if field.base == 'int' and field.type != 'LENGTH' or field.type == 'LENGTH':
+            return int(a) == int(b)
+        if field.base == 'float':
+            return Decimal(a.decode()) == Decimal(b.decode())
+    except (ValueError, InvalidOperation, UnicodeDecodeError):
+        return False
+    return False
+
+
+def tree_diff(schema, dnodes, pnodes, path):
+    """first difference between decoded dump nodes and independently parsed wire nodes, or None"""
+    if [n[0] for n in dnodes] != [p.tag for p in pnodes]:
+        return '%s: decoded tags %s, input tags %s' % (path, [n[0] for n in dnodes], [p.tag for p in pnodes])
+    for (tag, val, elems), p in zip(dnodes, pnodes):
+        f = schema.by_num.get(tag)
+        if f is None or not sem_equal(f, val, p.val):
+            return '%s: tag %d decoded %r, input text %r' % (path, tag, val[:60], p.val[:60])
+        if p.elems is not None:
+            if len(elems or []) != len(p.elems):
+                return '%s: group %d decoded %d elements, input has %d' % (path, tag, len(elems or []), len(p.elems))
+            for k, (de, pe) in enumerate(zip(elems, p.elems)):
+                r = tree_diff(schema, de, pe, '%s/%d[%d]' % (path, tag, k))
+                if r:
+                    return r
+    return None
+
+
+def missing_mandatory(sect, nodes, path):
+    have = {n.tag for n in nodes}
+    for m in sect.members:
+        if m.required and m.num not in have and m.num not in (8, 9, 35, 10):
+            return '%s: mandatory %d absent' % (path, m.num)
+    mem = sect.by_num()
+    for n in nodes:
+        if n.elems:
+            g = mem[n.tag].group
+            for k, e in enumerate(n.elems):
+                r = missing_mandatory(g, e, '%s/%d[%d]' % (path, n.tag, k))
+                if r:
+                    return r
+    return None
+
+
+def conformance(b, s, pairs):
+    """None when the byte string satisfies every acceptance condition of C04, else (class, text)"""
+    try:
+        p = fixwire.parse_message(b, s, pairs, strict_order=False)
+    except fixwire.WireError as e:
+        return None, (e.key, str(e))
+    for sect, nodes, name in ((s.header, p['header'], 'header'), (s.messages[p['msgtype']], p['body'], 'body'), (s.trailer, p['trailer'], 'trailer')):
+        r = missing_mandatory(sect, nodes, name)
+        if r:
+            return p, ('mandatory-missing', r)
+    return p, None
+
+
+def free_tags(s, n=40):
+    """tags with no dictionary entry"""
+    out, t = [], 1
+    cands = [20000, 9999, 6000, 5001, 1500, 40000, 65535, 65000, 12345]
+    for t in cands + list(range(2, 5000)):
+        if t not in s.by_num and t not in out:
+            out.append(t)
+            if len(out) >= n:
+                break
+    return out
+
+
+DEFECTS = ['none', 'numeric-variants', 'unknown-tag', 'unknown-tag-after-mandatory', 'unknown-tag-in-group', 'misplaced-known-tag', 'header-tag-in-body',
+           'body-tag-in-trailer', 'trailer-tag-in-body', 'duplicate', 'duplicate-in-header', 'missing-mandatory', 'missing-mandatory-in-group',
+           'element-missing-first-field', 'tag-plus-65536', 'long-tag-number', 'wrong-checksum', 'unknown-tag-last-in-body', 'foreign-tag-in-group']
+
+
+def all_lists(msg):
+    """every item list of a message: [(where, list, section)]"""
+    out = []
+
+    def rec(items, where, depth):
+        out.append((where if depth == 0 else where + '-group', items, depth))
+        for it in items:
+            if it.elems:
+                for e in it.elems:
+                    rec(e, where, depth + 1)
+    rec(msg['header'], 'header', 0)
+    rec(msg['body'], 'body', 0)
+    rec(msg['trailer'], 'trailer', 0)
+    return out
+
+
+def apply_defect(rng, s, msg, defect, free):
+    """mutates msg (Item tree) in place; returns (label or None if not applicable, post-render hook)"""
+    I = fixgen.Item
+    lists = all_lists(msg)
+    body = msg['body']
+    hdr_nums, trl_nums = set(s.header.nums()), set(s.trailer.nums())
+    body_nums = set(s.messages[msg['msgtype']].nums())
+    uval = lambda: bytes(rng.choice(b'ABCxyz019 =.') for _ in range(rng.randint(1, 12)))
+    if defect == 'none':
+        return 'none', None
+    if defect == 'numeric-variants':
+        n = 0
+        for where, items, depth in lists:
+            for it in items:
+                f = s.by_num[it.num]
+                if it.elems is None and f.base in ('int', 'float') and f.type not in ('LENGTH', 'NUMINGROUP') and not f.values and rng.random() < 0.6:
+                    neg = it.text.startswith(b'-')
+                    t = it.text[1:] if neg else it.text
+                    t = b'0' * rng.randint(1, 3) + t
+                    if f.base == 'float' and b'.' in t and rng.random() < 0.5:
+                        t += b'0' * rng.randint(1, 2)
+                    it.text = (b'-' if neg else b'') + t
+                    n += 1
+        return ('numeric-variants' if n else None), None
+    if defect in ('unknown-tag', 'unknown-tag-after-mandatory', 'unknown-tag-last-in-body', 'long-tag-number'):
+        tag = rng.choice(free) if defect != 'long-tag-number' else rng.choice([100000, 123456, 1000000, 99999999, 2147483647, 4294967295 + rng.randint(1, 9), 10 ** 9 + 7])
+        if defect == 'unknown-tag':
+            where, items, depth = rng.choice([l for l in lists if l[2] == 0])
+            items.insert(rng.randint(0, len(items)), I(tag, uval()))
+            return 'unknown-tag|' + where, None
+        # after the last mandatory field of the body (or at its very end)
+        sect = s.messages[msg['msgtype']]
+        req = {m.num for m in sect.members if m.required}
+        last = max([i for i, it in enumerate(body) if it.num in req] + [-1])
+        pos = len(body) if defect == 'unknown-tag-last-in-body' else rng.randint(last + 1, len(body))
+        body.insert(pos, I(tag, uval()))
+        return defect, None
+    if defect in ('unknown-tag-in-group', 'foreign-tag-in-group'):
+        gl = [l for l in lists if l[2] > 0]
+        if not gl:
+            return None, None
+        where, items, depth = rng.choice(gl)
+        if defect == 'unknown-tag-in-group':
+            tag = rng.choice(free)
+        else:
+            legal = hdr_nums | trl_nums | body_nums
+            for _, sect in s.all_sections():
+                pass
+            cands = [n for n in s.by_num if n not in legal and n not in {it.num for it in items} and not _in_any_group_of(s, msg['msgtype'], n)]
+            if not cands:
+                return None, None
+            tag = rng.choice(cands)
+        items.insert(rng.randint(1, len(items)), I(tag, b'1'))
+        return defect + '|' + where, None
+    if defect == 'misplaced-known-tag':
+        legal = hdr_nums | trl_nums | body_nums
+        cands = [n for n in s.by_num if n not in legal and s.by_num[n].type in ('STRING', 'INT', 'CHAR', 'QTY', 'PRICE')]
+        if not cands:
+            return None, None
+        sect = s.messages[msg['msgtype']]
+        req = {m.num for m in sect.members if m.required}
+        last = max([i for i, it in enumerate(body) if it.num in req] + [-1])
+        pos = rng.randint(0, len(body)) if rng.random() < 0.5 else rng.randint(last + 1, len(body))
+        body.insert(pos, I(rng.choice(cands), b'1'))
+        return defect + ('|after-mandatory' if pos > last else '|before-mandatory'), None
+    if defect == 'header-tag-in-body':
+        cands = [n for n in hdr_nums if n not in body_nums and n not in (8, 9, 35) and n not in {it.num for it in msg['header']} and s.by_num[n].type in ('STRING', 'INT', 'CHAR', 'SEQNUM', 'BOOLEAN')]
+        if not cands or not body:
+            return None, None
+        body.insert(rng.randint(1, len(body)), I(rng.choice(cands), b'Y' if True else b''))
+        return defect, None
+    if defect == 'body-tag-in-trailer':
+        cands = [it for it in body if it.elems is None and it.num not in trl_nums and it.num not in hdr_nums]
+        sect = s.messages[msg['msgtype']]
+        req = {m.num for m in sect.members if m.required}
+        cands = [it for it in cands if it.num not in req and s.by_num[it.num].type not in ('LENGTH', 'DATA', 'XMLDATA')]
+        if not cands:
+            return None, None
+        it = rng.choice(cands)
+        body.remove(it)
+        msg['trailer'].append(it)
+        return defect, None
+    if defect == 'trailer-tag-in-body':
+        cands = [n for n in trl_nums if n != 10 and s.by_num[n].type not in ('LENGTH', 'DATA')]
+        if not cands or {it.num for it in msg['trailer']} & set(cands):
+            return None, None
+        body.insert(rng.randint(0, max(0, len(body) - 1)), I(rng.choice(cands), b'1'))
+        return defect, None
+    if defect in ('duplicate', 'duplicate-in-header'):
+        items = msg['header'] if defect == 'duplicate-in-header' else body
+        cands = [it for it in items if it.elems is None and s.by_num[it.num].type not in ('LENGTH', 'DATA', 'XMLDATA')]
+        if not cands:
+            return None, None
+        it = rng.choice(cands)
+        i = items.index(it)
+        items.insert(rng.randint(i + 1, len(items)), I(it.num, it.text if rng.random() < 0.5 else it.text + b'1'))
+        return defect, None
+    if defect == 'missing-mandatory':
+        pool = []
+        for where, items, sect in (('header', msg['header'], s.header), ('body', body, s.messages[msg['msgtype']])):
+            req = {m.num for m in sect.members if m.required}
+            pool += [(where, items, it) for it in items if it.num in req and it.num not in (8, 9, 35)]
+        if not pool:
+            return None, None
+        where, items, it = rng.choice(pool)
+        if s.by_num[it.num].type == 'LENGTH':
+            return None, None
+        items.remove(it)
+        return defect + '|' + where, None
+    if defect == 'missing-mandatory-in-group':
+        pool = []
+
+        def rec(items, sect):
+            mem = sect.by_num()
+            for it in items:
+                if it.elems:
+                    g = mem[it.num].group
+                    req = {m.num for m in g.members if m.required}
+                    for e in it.elems:
+                        pool.extend((e, x) for x in e[1:] if x.num in req and s.by_num[x.num].type != 'LENGTH')
+                        rec(e, g)
+        rec(body, s.messages[msg['msgtype']])
+        if not pool:
+            return None, None
+        e, x = rng.choice(pool)
+        e.remove(x)
+        return defect, None
+    if defect == 'element-missing-first-field':
+        pool = []
+
+        def rec2(items):
+            for it in items:
+                if it.elems:
+                    for k, e in enumerate(it.elems):
+                        if len(e) > 1:
+                            pool.append((it, k, e))
+                        rec2(e)
+        rec2(body)
+        rec2(msg['header'])
+        if not pool:
+            return None, None
+        # a later element is only unambiguously "an element without its first field" when its first remaining tag already occurred in the
+        # element before it (fix8 and the FIX specification delimit elements by the repetition of a tag) and no nested group could absorb it
+        pool = [(it, k, e) for it, k, e in pool if k == 0 or (e[1].num in {x.num for x in it.elems[k - 1]} and not any(x.elems for x in it.elems[k - 1]))]
+        if not pool:
+            return None, None
+        it, k, e = rng.choice(pool)
+        del e[0]
+        return defect + ('|first-element' if k == 0 else '|later-element'), None
+    if defect == 'tag-plus-65536':
+        where, items, depth = rng.choice(lists)
+        cands = [it for it in items if it.elems is None and s.by_num[it.num].type not in ('LENGTH', 'DATA', 'XMLDATA')]
+        if not cands:
+            return None, None
+        it = rng.choice(cands)
+        sect_req = it.num
+        it.num = it.num + 65536 * rng.choice([1, 1, 2, 3])
+        return defect + '|' + where, None
+    if defect == 'wrong-checksum':
+        def hook(b):
+            ck = int(b[-4:-1])
+            return b[:-4] + ('%03d' % ((ck + rng.randint(1, 255)) % 256)).encode() + b'\x01'
+        return defect, hook
+    return None, None
+
+
+def _in_any_group_of(s, mt, n):
+    def rec(sect):
+        for m in sect.members:
+            if m.group and (n in m.group.nums() or rec(m.group)):
+                return True
+        return False
+    return rec(s.messages[mt]) or rec(s.header)
+
+
+def render_loose(msg, begin):
+    """fixgen.render, but tolerant of tags that are not in the schema"""
+    return fixgen.render(msg, begin)
+
+
+def c04(tier, seed):
+    c = Check('C04', tier, seed)
+    exe = c.build('asan', ['codec_exec'])['codec_exec']
+    sch = schemas()
+    rng = random.Random(seed * 611953 + 4)
+    total = 16000 if c.quick else 1000000
+    batch = 50000
+    gens = [fixgen.Gen(s, rng, max_str=14, opt_pct=30) for _, s, _ in sch]
+    frees = [free_tags(s) for _, s, _ in sch]
+    classes, verdicts = set(), {}
+    done = 0
+    samples = []
+    while done < total:
+        n = min(batch, total - done)
+        entries, meta = [], {}
+        for k in range(n):
+            i = rng.randrange(len(sch))
+            cn, s, pm = sch[i]
+            mt = rng.choice(s.msg_order)
+            msg = gens[i].message(mt)
+            defect = DEFECTS[(done + k) % len(DEFECTS)]
+            label, hook = apply_defect(rng, s, msg, defect, frees[i])
+            if label is None:
+                label, hook = apply_defect(rng, s, msg, rng.choice(['unknown-tag-after-mandatory', 'duplicate', 'wrong-checksum', 'tag-plus-65536']), frees[i])
+                if label is None:
+                    label = 'none'
+            b = fixgen.render(msg, s.begin_string)
+            if hook:
+                b = hook(b)
+            if len(b) > 8000:
+                continue
+            kk = len(entries)
+            entries.append((cn, mt, b, label))
+            meta[kk] = (cn, s, pm, label)
+        obs = run_script(c, exe, raw_cases(entries, 'RAWDEC:noreenc'), len(entries), 'c04_%d' % done, per_case_timeout=2.0)
+        for k, (cn, s, pm, label) in meta.items():
+            o = obs.get(k)
+            c.evaluations += 1
+            if o is None or 'RAWDEC:noreenc' not in o.ops:
+                continue
+            st, pl = o.ops['RAWDEC:noreenc']
+            b = entries[k][2]
+            p, why = conformance(b, s, pm)
+            ctxs = 'ctx=%s msg=%s defect=%s' % (cn, entries[k][1], label)
+            vkey = ('conforming' if why is None else 'nonconforming') + '/' + ('accepted' if st == 'ok' else 'rejected')
+            verdicts[vkey] = verdicts.get(vkey, 0) + 1
+            classes.add(hash((cn, label, vkey)))
+            if why is not None:
+                if label in ('none', 'numeric-variants'):
+                    c.inconclusive.append('generator/oracle disagreement: %s judged %s: %r' % (label, why, b[:200]))
+                if st == 'ok':
+                    c.add_violation('oracle:accepted-nonconforming|' + label, '%s: %s; input=%r decoded=%s' % (ctxs, why[1], b[:400], pl[:300]))
+                continue
+            # conforming
+            if st != 'ok':
+                if label in ('none', 'numeric-variants'):
+                    c.stats['conforming_rejected'] = c.stats.get('conforming_rejected', 0) + 1   # acceptance of conforming messages is C01's business
+                continue
+            try:
+                d = parse_dump(pl)
+            except (ValueError, AssertionError, IndexError) as e:
+                c.inconclusive.append('dump unparsable: %s %r' % (e, pl[:200]))
+                continue
+            r = tree_diff(s, d['H'], p['header'], 'header') or tree_diff(s, d['B'], p['body'], 'body') or tree_diff(s, d['T'], p['trailer'], 'trailer')
+            if r:
+                c.add_violation('oracle:accepted-content-differs|' + label, '%s: %s; input=%r' % (ctxs, r, b[:400]))
+            if len(samples) < 4 and k % 7 == 3:
+                samples.append({'defect': label, 'verdict': vkey, 'input': b[:300].decode('latin-1')})
+        done += n
+    c.hashes['defect_class_outcome'] = classes
+    c.stats.update({'verdict_' + k: v for k, v in verdicts.items()})
+    c.samples = samples
+    c.rule = ('reference-rendered messages of both schemas with one injected defect out of 19 classes (unknown tag in header/body/trailer/group, unknown or '
+              'misplaced tag AFTER the last mandatory field, header tag in body, body tag in trailer, trailer tag in body, duplicates, missing mandatory '
+              'fields incl. inside elements, element without its first field, tag+65536k, 6-10 digit tags, wrong checksum, leading/trailing-zero '
+              'numerics, none); an independent conformance predicate over the independent schema model decides each input; strict factory must '
+              'throw on every non-conforming input, and every accepted message must contain exactly the input tokens (numeric equality by value); '
+              'distinct = (schema, defect class, predicate verdict, factory verdict)')
+    c.assumptions = ['only the stated direction is demanded: non-conforming => throws; accepted => faithful (acceptance of conforming input is C01)',
+                     'field order inside a section and NumInGroup/element-count agreement are not among the stated conditions and are not varied']
+    c.finish()
+
+
+# ---------------------------------------------------------------------------------------------------------
+# C05: permissive decoding passes unknown fields through
+
+PLACES = ['header', 'header-end', 'body', 'body-end', 'trailer', 'between-elements', 'inside-element', 'element-end']
+
+
+def insert_unknown(rng, s, msg, place, free):
+    """insert 1..3 unknown tokens at the given kind of place; returns (label or None, inserted items)"""
+    I = fixgen.Item
+    n = rng.randint(1, 3)
+    new = [I(rng.choice(free), bytes(rng.choice(b'ABCxyz019 =.:') for _ in range(rng.randint(1, 14)))) for _ in range(n)]
+
+    def groups_of(items, acc):
+        for it in items:
+            if it.elems:
+                acc.append(it)
+                for e in it.elems:
+                    groups_of(e, acc)
+        return acc
+    if place == 'header':
+        if len(msg['header']) < 2:
+            return None, new
+        p = rng.randint(1, len(msg['header']) - 1)
+        msg['header'][p:p] = new
+    elif place == 'header-end':
+        msg['header'].extend(new)
+    elif place == 'body':
+        if len(msg['body']) < 2:
+            return None, new
+        # not directly after a group: that position belongs to 'element-end'
+        cand = [p for p in range(1, len(msg['body'])) if not msg['body'][p - 1].elems]
+        if not cand:
+            return None, new
+        p = rng.choice(cand)
+        msg['body'][p:p] = new
+    elif place == 'body-end':
+        if msg['body'] and msg['body'][-1].elems:
+            return None, new
+        msg['body'].extend(new)
+    elif place == 'trailer':
+        if msg['trailer'] and rng.random() < 0.5:
+            msg['trailer'][0:0] = new
+        else:
+            msg['trailer'].extend(new)
+    else:
+        gs = groups_of(msg['body'], []) + groups_of(msg['header'], [])
+        gs = [g for g in gs if len(g.elems) >= (2 if place == 'between-elements' else 1)]
+        if not gs:
+            return None, new
+        g = rng.choice(gs)
+        if place == 'between-elements':
+            k = rng.randint(0, len(g.elems) - 2)
+            g.elems[k].extend(new)
+        elif place == 'inside-element':
+            e = rng.choice([e for e in g.elems if len(e) >= 2] or [None])
+            if e is None:
+                return None, new
+            p = rng.randint(1, len(e) - 1)
+            e[p:p] = new
+        else:
+            g.elems[-1].extend(new)
+    return place, new
+
+
+def strip_unknown_tokens(toks, unknown_tags):
+    return [t for t in toks if t[0] not in unknown_tags]
+
+
+def c05(tier, seed):
+    c = Check('C05', tier, seed)
+    exe = c.build('asan', ['codec_exec'])['codec_exec']
+    sch = schemas()
+    rng = random.Random(seed * 15485863 + 5)
+    total = 8000 if c.quick else 500000
+    batch = 40000
+    gens = [fixgen.Gen(s, rng, max_str=14, opt_pct=30) for _, s, _ in sch]
+    frees = [free_tags(s) for _, s, _ in sch]
+    classes = set()
+    samples = []
+    done = 0
+    import copy
+    while done < total:
+        n = min(batch, total - done)
+        entries, meta = [], {}
+        for k in range(n):
+            i = rng.randrange(len(sch))
+            cn, s, pm = sch[i]
+            mt = rng.choice(s.msg_order)
+            msg = gens[i].message(mt)
+            clean = fixgen.render(msg, s.begin_string)
+            place = PLACES[(done + k) % len(PLACES)]
+            label, new = insert_unknown(rng, s, msg, place, frees[i])
+            if label is None:
+                label, new = insert_unknown(rng, s, msg, rng.choice(['header-end', 'trailer']), frees[i])
+            b = fixgen.render(msg, s.begin_string)
+            if len(b) > 7800:
+                continue
+            kk = len(entries) // 2
+            entries.append((cn, mt, clean, label))
+            entries.append((cn, mt, b, label))
+            meta[kk] = (cn, s, pm, label, {x.num for x in new}, len(new))
+        lines = []
+        for j, (cn, mt, raw, cls) in enumerate(entries):
+            lines += ['CASE %d %s' % (j, cn), 'M ' + mt, 'CLASS ' + cls, 'RAW ' + raw.hex(), 'DO ' + ('RAWDEC:noreenc' if j % 2 == 0 else 'RAWDEC:perm'), 'END']
+        obs = run_script(c, exe, lines, len(entries), 'c05_%d' % done, per_case_timeout=2.0)
+        for kk, (cn, s, pm, label, utags, nu) in meta.items():
+            o0, o1 = obs.get(2 * kk), obs.get(2 * kk + 1)
+            c.evaluations += 1
+            if o0 is None or o1 is None:
+                continue
+            clean, b = entries[2 * kk][2], entries[2 * kk + 1][2]
+            ctxs = 'ctx=%s msg=%s place=%s' % (cn, entries[2 * kk][1], label)
+            st0, ref = o0.ops.get('RAWDEC:noreenc', ('missing', ''))
+            if st0 != 'ok':
+                c.stats['clean_message_rejected_in_strict_mode'] = c.stats.get('clean_message_rejected_in_strict_mode', 0) + 1
+                continue        # C01's business
+            st1, got = o1.ops.get('RAWDEC:perm', ('missing', ''))
+            classes.add(hash((cn, label, nu, st1)))
+            if st1 != 'ok':
+                c.add_violation('oracle:permissive-rejects-unknown-tag|' + label, '%s: %s; input=%r' % (ctxs, exc_text(got)[:120], b[:500]))
+                continue
+            try:
+                dref, dgot = parse_dump(ref), parse_dump(got)
+            except (ValueError, AssertionError, IndexError) as e:
+                c.inconclusive.append('dump unparsable: %s' % e)
+                continue
+            bad = None
+            for sec in 'HBT':
+                # BodyLength (9) and CheckSum (10) legitimately differ between the clean and the extended message
+                a = [x for x in dref[sec] if x[0] not in (9, 10)]
+                g = [x for x in dgot[sec] if x[0] not in (9, 10)]
+                if a != g:
+                    i2 = 0
+                    while i2 < min(len(a), len(g)) and a[i2] == g[i2]:
+                        i2 += 1
+                    bad = 'section %s differs from strict decoding at field index %d: strict %s, permissive %s' % (
+                        sec, i2, [x[0] for x in a[i2:i2 + 4]], [x[0] for x in g[i2:i2 + 4]])
+                    break
+            if bad:
+                c.add_violation('oracle:known-field-lost-or-changed|' + label, '%s: %s; input=%r' % (ctxs, bad, b[:500]))
+                continue
+            st2, re_hex = o1.ops.get('RAWDEC:perm-REENC', ('missing', ''))
+            if st2 != 'ok':
+                c.add_violation('oracle:reencode-failed|' + label, '%s: %s' % (ctxs, exc_text(re_hex)[:120]))
+                continue
+            w2 = unhex(re_hex)
+            try:
+                t_in = fixwire.tokenize(b, pm)
+                t_out = fixwire.tokenize(w2, pm)
+            except fixwire.WireError as e:
+                c.add_violation('oracle:reencoded-bytes-malformed|' + label, '%s: %s; reencoded=%r' % (ctxs, e, w2[:400]))
+                continue
+            m_in = sorted((t[0], t[1]) for t in t_in if t[0] not in (9, 10))
+            m_out = sorted((t[0], t[1]) for t in t_out if t[0] not in (9, 10))
+            if m_in != m_out:
+                lost = [x for x in m_in if x not in m_out]
+                extra = [x for x in m_out if x not in m_in]
+                kind = 'unknown-field-not-reemitted' if any(x[0] in utags for x in lost) else 'duplicated-or-altered-tokens'
+                c.add_violation('oracle:%s|%s' % (kind, label), '%s: lost %s extra %s; input=%r reencoded=%r' % (ctxs, lost[:4], extra[:4], b[:300], w2[:300]))
+                continue
+            # frame of the re-encoding must be valid
+            try:
+                bl = int(t_out[1][1])
+                if t_out[1][0] != 9 or t_out[-1][0] != 10 or bl != t_out[-1][2] - t_out[1][3] or int(t_out[-1][1]) != sum(w2[:t_out[-1][2]]) % 256:
+                    raise ValueError
+            except (ValueError, IndexError):
+                c.add_violation('oracle:reencoded-frame-invalid|' + label, '%s: reencoded=%r' % (ctxs, w2[:300]))
+                continue
+            if len(samples) < 4 and kk % 11 == 5:
+                samples.append({'place': label, 'input': b[:260].decode('latin-1')})
+        done += n
+    c.hashes['placement_class'] = classes
+    c.samples = samples or [{'note': 'no passing case to sample'}]
+    c.rule = ('conforming reference-rendered messages of both schemas + 1..3 tokens with tags absent from the dictionary (values incl. "=") inserted at 8 '
+              'kinds of place (between header fields, end of header, inside body, end of body, trailer, between group elements, inside an element, '
+              'end of the last element); permissive factory must accept, every known field must equal its strict-mode decoding of the clean message '
+              '(dump trees compared), and the re-encoding must contain exactly the input tokens (multiset, data fields by length) with a valid '
+              'BodyLength/CheckSum; distinct = (schema, placement, number of unknown tokens, outcome)')
+    c.assumptions = ['the position at which unknown fields are re-emitted is not prescribed; tokens are compared as a multiset', 'tags 9 and 10 are checked for validity, not equality']
+    c.finish()
